@@ -330,6 +330,14 @@ def run(ck: Checker):
     defs_ = [n for n in walk_shallow_func(hc.node) if isinstance(n, ast.Assign) and any(is_name(t, qn) for t in n.targets)]
     okq = len(defs_) == 1 and isinstance(defs_[0].value, ast.Call) and (dotted(defs_[0].value.func) or '').split('.')[-1] in ('Queue', 'SimpleQueue', 'LifoQueue', 'SingleLane')
     ck.ob('C18-14', hc, defs_[0] if defs_ else hc.node, okq, f'`{qn}` is created by the handler of each connection' if okq else f'`{qn}` is `{norm_text(defs_[0].value)[:50] if defs_ else "not bound in the handler"}`, not a queue made by this connection\'s handler: with two connections the responder of one can dequeue the other\'s request and write the response to the wrong socket — the requester never gets its answer and the other client\'s receiver fails on the unknown id')
+    # ------------------------------------------------------------------ C18-17
+    ck.rule('C18-17', 'a payload of any size reaches the other side however slowly it reads: write_record waits for `drain()` as long as it takes — back-pressure (the peer has `backlog` requests in progress and has stopped reading) is not a failure; a clock on the drain raises in the sender task, which dies with the request unregistered')
+    wr = mod.func('write_record')
+    drains = [a_ for a_ in ast.walk(wr.node) if isinstance(a_, ast.Call) and method_of(a_)[1] == 'drain']
+    direct = [a_ for a_ in ast.walk(wr.node) if isinstance(a_, ast.Await) and isinstance(a_.value, ast.Call) and method_of(a_.value)[1] == 'drain']
+    clocks = [a_ for a_ in ast.walk(wr.node) if (isinstance(a_, ast.Call) and (dotted(a_.func) or '').split('.')[-1] in ('wait_for', 'timeout', 'timeout_at', 'wait'))]
+    ok17 = bool(drains) and len(direct) == len(drains) and not clocks
+    ck.ob('C18-17', wr, drains[0] if drains else wr.node, ok17, 'the record is flushed with a plain `await writer.drain()`' if ok17 else (f'`{norm_text(clocks[0])[:60]}` puts a clock on the flush of the record: a large request written while the peer is busy raises TimeoutError in the sender task — the request is never registered, its caller never gets an answer' if clocks else 'the record is not flushed with `await writer.drain()`'))
     # ------------------------------------------------------------------ C18-15
     ck.rule('C18-15', 'every request read from a connection gets its response, also the ones queued behind a shutdown request: the responding task of a connection leaves its loop (normally) only from the handler of the timed get that found the request queue idle — not through the loop test, not elsewhere')
     probs15 = []
@@ -503,4 +511,20 @@ def run(ck: Checker):
                 recv_txt = norm_text(d_[0].value)
         if not calls or recv_txt != conn:
             probs.append(f'{meth} does not delegate to {conn}.{meth}')
+        else:
+            # ... with the caller's arguments as they are: every parameter is handed on as itself (positionally in its
+            # own position, or under its own keyword); a re-computed argument (a slice made from offset and size) changes
+            # what is sent
+            ps_ = [a.arg for a in g.node.args.args[1:] + g.node.args.kwonlyargs]
+            c0 = calls[0]
+            passed = {}
+            for i_, a_ in enumerate(c0.args):
+                if i_ < len(ps_):
+                    passed[ps_[i_]] = a_
+            for k_ in c0.keywords:
+                if k_.arg:
+                    passed[k_.arg] = k_.value
+            bad_ = [p_ for p_ in ps_ if not (p_ in passed and is_name(passed[p_], p_))]
+            if bad_:
+                probs.append(f'{meth} does not hand its parameter(s) {bad_} on unchanged (`{norm_text(c0)[:60]}`): what arrives is not what was sent')
     ck.ob('C18-8', init, (base.node.lineno, '_Pipe'), not probs, '; '.join(probs) if probs else 'write-only Connection on wpath, read-only Connection on rpath; send*/recv* delegate to them unchanged')
